@@ -143,6 +143,14 @@ def check(rep, tier, seed):
             jobs.append((["view", "-m", ",".join(map(str, order)), "--precision", "1"], text_spectrum(sh, ints)))
             jobs.append((["view", "-M", ",".join(map(str, keep)), "--precision", "1"], text_spectrum(sh, ints)))
             exp_cases += ["marg %s %s %s" % (fmt(sh), ",".join(ints), fmt(order))] * 2
+    # keep-lists with an axis named twice or an axis the spectrum does not have (as many entries as axes, or not)
+    for sh, data in list(pool)[:8 if tier == "quick" else 60]:
+        d = len(sh)
+        ints = [str(abs(x)) for x in data]
+        a = rng.randrange(d)
+        for kl in ([a] * d, [a, a], [a, d + 3] + [a] * (d - 2), list(range(d)) + [0], [a] + [rng.randrange(d) for _ in range(d - 1)]):
+            jobs.append((["view", "-M", ",".join(map(str, kl)), "--precision", "1"], text_spectrum(sh, ints)))
+            exp_cases.append("viewrun k:%s - 0 0 %s %s" % (fmt(kl), fmt(sh), ",".join(ints)))
     # inadmissible lists through the binary: an axis named twice (adjacent or not), out of range, all axes, too many
     for sh, data in list(pool)[:8 if tier == "quick" else 60]:
         d = len(sh)
